@@ -13,8 +13,8 @@ import (
 	"bytes"
 	"fmt"
 	"os"
-	"path/filepath"
 	"os/signal"
+	"path/filepath"
 	"sort"
 	"strings"
 	"syscall"
